@@ -1324,14 +1324,28 @@ class VM:
                 raise JSTypeError(f"{method} callback is not a function")
             return callback
 
+        def visit(removed_as_undefined=False):
+            """Yield (index, element) for every index that existed when the call started.
+
+            Elements are read when they are visited, so changes made by the callback are
+            seen. An index the callback has removed is skipped, or yielded as undefined
+            for the methods that visit every index (find, findIndex).
+            """
+            for i in range(len(arr._elements)):
+                if i < len(arr._elements):
+                    yield i, arr._elements[i]
+                elif removed_as_undefined:
+                    yield i, UNDEFINED
+
         def map_fn(*args):
             callback = callback_arg(args)
             this_arg = args[1] if len(args) > 1 else UNDEFINED
             result = JSArray()
-            result._elements = []
-            for i, elem in enumerate(arr._elements):
-                val = vm._call_callback(callback, [elem, i, arr], this_arg)
-                result._elements.append(val)
+            result._elements = [UNDEFINED] * len(arr._elements)
+            for i, elem in visit():
+                result._elements[i] = vm._call_callback(
+                    callback, [elem, i, arr], this_arg
+                )
             return result
 
         def filter_fn(*args):
@@ -1339,7 +1353,7 @@ class VM:
             this_arg = args[1] if len(args) > 1 else UNDEFINED
             result = JSArray()
             result._elements = []
-            for i, elem in enumerate(arr._elements):
+            for i, elem in visit():
                 val = vm._call_callback(callback, [elem, i, arr], this_arg)
                 if to_boolean(val):
                     result._elements.append(elem)
@@ -1356,6 +1370,8 @@ class VM:
                 acc = arr._elements[0]
                 start_idx = 1
             for i in range(start_idx, len(arr._elements)):
+                if i >= len(arr._elements):
+                    continue  # removed by the callback
                 elem = arr._elements[i]
                 acc = vm._call_callback(callback, [acc, elem, i, arr])
             return acc
@@ -1372,6 +1388,8 @@ class VM:
                 acc = arr._elements[length - 1]
                 start_idx = length - 2
             for i in range(start_idx, -1, -1):
+                if i >= len(arr._elements):
+                    continue  # removed by the callback
                 elem = arr._elements[i]
                 acc = vm._call_callback(callback, [acc, elem, i, arr])
             return acc
@@ -1400,7 +1418,7 @@ class VM:
         def forEach_fn(*args):
             callback = callback_arg(args)
             this_arg = args[1] if len(args) > 1 else UNDEFINED
-            for i, elem in enumerate(arr._elements):
+            for i, elem in visit():
                 vm._call_callback(callback, [elem, i, arr], this_arg)
             return UNDEFINED
 
@@ -1426,7 +1444,7 @@ class VM:
         def find_fn(*args):
             callback = callback_arg(args)
             this_arg = args[1] if len(args) > 1 else UNDEFINED
-            for i, elem in enumerate(arr._elements):
+            for i, elem in visit(removed_as_undefined=True):
                 val = vm._call_callback(callback, [elem, i, arr], this_arg)
                 if to_boolean(val):
                     return elem
@@ -1435,7 +1453,7 @@ class VM:
         def findIndex_fn(*args):
             callback = callback_arg(args)
             this_arg = args[1] if len(args) > 1 else UNDEFINED
-            for i, elem in enumerate(arr._elements):
+            for i, elem in visit(removed_as_undefined=True):
                 val = vm._call_callback(callback, [elem, i, arr], this_arg)
                 if to_boolean(val):
                     return i
@@ -1444,7 +1462,7 @@ class VM:
         def some_fn(*args):
             callback = callback_arg(args)
             this_arg = args[1] if len(args) > 1 else UNDEFINED
-            for i, elem in enumerate(arr._elements):
+            for i, elem in visit():
                 val = vm._call_callback(callback, [elem, i, arr], this_arg)
                 if to_boolean(val):
                     return True
@@ -1453,7 +1471,7 @@ class VM:
         def every_fn(*args):
             callback = callback_arg(args)
             this_arg = args[1] if len(args) > 1 else UNDEFINED
-            for i, elem in enumerate(arr._elements):
+            for i, elem in visit():
                 val = vm._call_callback(callback, [elem, i, arr], this_arg)
                 if not to_boolean(val):
                     return False
